@@ -73,6 +73,13 @@ static int add_equation(const char *function, vnacal_new_measurement_t *vnmp,
      * Construct the lists of terms making up the equation.
      */
     if (_vnacal_new_build_equation_terms(vnep) == -1) {
+	while (vnep->vne_term_list != NULL) {
+	    vnacal_new_term_t *vntp = vnep->vne_term_list;
+
+	    vnep->vne_term_list = vntp->vnt_next;
+	    free((void *)vntp);
+	}
+	free((void *)vnep);
 	return -1;
     }
 
